@@ -14,6 +14,12 @@ CLAIMED = {
  "C05": dict(cat="proof", technique="moment conditions: extracted wrapper-resolved stencils applied to generic degree<=2 (ENO3: branchwise cubic/quadratic) polynomials with symbolic coefficients vs documented continuous operators; closed form of the coordinate field",
              text="Every differential stencil equals its documented continuous operator on all polynomials of degree <= 2 (sign, axis and prefactor conventions included); ENO3 per upwind-branch combination; coordinate field axis convention from _init_domain.",
              note="trusted A1, A2, A7; continuous operators written from docstrings/comments in sa/props/c05.py", ref="5 C05"),
+ "C06": dict(cat="other", technique="abstract interpretation of the numba communicator kernels as numpy code (one generic marker); closed forms of nearest index, support distances and weights as functions of symbolic cell distances; ordered-region evaluation on r in [0,1] with exact trigonometric / radical normal forms; interval sign rules",
+             text="Decides the real-arithmetic clauses: nearest index = floor((x-shift)/dx); support distances, weight block (4 per direction) and both transfer windows are one index set with x on the last array axis; both kernels factor into one-directional functions whose four values at j-r sum to a constant with total 1/dx^dim (sum * cell volume = 1) for all r in [0,1] including the endpoints (rounding case), are non-negative there, and Peskin has zero first moment; default grid shift dx/2 agrees with the simulator's cell centres. Floating-point evaluation of the weights is the stated remainder.",
+             note="remainder: fastmath/ulp behaviour; kernel width 2 (the only width the kernels accept); trusted A2, A4, A7", ref="5 C06"),
+ "C07": dict(cat="other", technique="sibling agreement of the two transfer kernels from one abstractly interpreted generic loop iteration each: window bounds, weight views, component pairing and factors compared as normal forms; accumulate/assign classification; call-site argument identity",
+             text="Interpolation is lag[c,i] = dx^dim * sum(eul[c,W_i] * w[...,i]) and spreading is eul[c,W_i] += lag[c,i] * w[...,i] with the identical window W_i, identical weight view, component c->c, the cell-volume factor exactly once, += in a serial range loop, for scalar and vector variants in 2D and 3D; in the forcing class both directions receive the same weights and index arrays with no write in between. Adjointness and force (with C06: torque) conservation follow term by term.",
+             note="rounding excluded; trusted A4, A7", ref="5 C07"),
  "C10": dict(cat="other", technique="abstract instantiation of the interaction class with a stub forcing grid; enumeration of all stores into the integral / flow velocity / instance attributes over the traces of every entry point; elementwise reading of the whole-array numba kernels; accumulate/assign classification of the spread; package-wide AST who-may-write scan",
              text="Single writer of the position-mismatch integral (time_step, Euler forward with the caller's dt, time += dt once); evaluation entry points never write it, the flow velocity, or instance attributes; extracted law V = u_interp - u_body, F = k P + c V; both coefficients scaled by max spacing^(dim-1) exactly once; every pipeline stage reads what the previous stage produced; reset mode = zero fill + accumulate, otherwise accumulate only. By induction over the single writer this is the property for all call histories.",
              note="body-state purity of concrete forcing grids is analysed with C08/C09; trusted A4, A7", ref="5 C10"),
